@@ -13,7 +13,7 @@ use std::collections::BTreeSet;
 pub const DEF: PropDef = PropDef {
     id: "C10",
     level: "exploration",
-    rule: "all programs that build a dictionary from every ordered selection of k=2,3 (thorough also 4) keys out of {\"p\",\"q\",\"r\",true,null,mysterious,\"true\",\"null\"} and then apply one of 23 operations (join with/without delimiter, join with a non-string value at each key position, print, compare, copy, every erroring statement whose message renders the array, array used as key), plus a parse/lint/runtime-error corpus; each program is run under hash seeds 0,1,2,... in fresh threads until every one of the k! iteration orders of its dictionary has been observed (cap 64 / 600 seeds); stdout, result, error text, parse errors and lint reports must be byte-identical across all runs; non-trivial = at least two different iteration orders were actually exercised for the program; distinct = distinct program text",
+    rule: "all programs that build a dictionary from every ordered selection of k=2,3 (thorough also 4) keys out of {\"p\",\"q\",\"r\",true,null,mysterious,\"true\",\"null\",\"9\",\"10\",\"1a\",\"\"} and then apply one of 27 operations (join with/without delimiter, join with a non-string value at each key position, print, compare, copy, every erroring statement whose message renders the array, array used as key), plus a parse/lint/runtime-error corpus; each program is run under hash seeds 0,1,2,... in fresh threads until every one of the k! iteration orders of its dictionary has been observed (cap 64 / 600 seeds); stdout, result, error text, parse errors and lint reports must be byte-identical across all runs; non-trivial = at least two different iteration orders were actually exercised for the program; distinct = distinct program text",
     assumptions: &[
         "seed control relies on std resolving getrandom through a weak symbol; ./check selftest fails loudly if the same seed stops giving the same order or different seeds stop giving different orders",
         "a dictionary whose orders were not all reached within the seed cap is reported in the evidence as partially covered",
@@ -22,7 +22,7 @@ pub const DEF: PropDef = PropDef {
     exhaustive: true,
 };
 
-pub const KEYS: &[&str] = &["\"p\"", "\"q\"", "\"r\"", "true", "null", "mysterious", "\"true\"", "\"null\""];
+pub const KEYS: &[&str] = &["\"p\"", "\"q\"", "\"r\"", "true", "null", "mysterious", "\"true\"", "\"null\"", "\"9\"", "\"10\"", "\"1a\"", "\"\""];
 
 pub const OPS: &[&str] = &[
     "join x\nsay x\n",
@@ -44,6 +44,10 @@ pub const OPS: &[&str] = &[
     "say x < x\n",
     "cast x into y with 2\n",
     "put 1 into y\nlet y at x be 2\n",
+    "@REBUILD\nsay x is y\nsay y is x\nsay x isnt y\nlet y at @K0 be 1\nsay x is y\n",
+    "@REBUILD\nrock z with x\nrock u with y\nsay z is u\nsay u at 0 is x\n",
+    "turn up x\n",
+    "say x at 0 at 0\n",
     "@ALLNUM\njoin x\n",
     "@ALLNUM\njoin x with \",\"\n",
     "let x at @K0 be 7\nlet x at @KL be null\njoin x\n",
@@ -77,6 +81,9 @@ pub fn dict_programs(k: usize) -> Space<(String, usize)> {
         t.push_str("put x into dd\n");
         let allnum: String = ks.iter().enumerate().map(|(i, key)| format!("let x at {} be {}\n", KEYS[*key], i + 1)).collect::<Vec<_>>().concat();
         let op = op.replace("@ALLNUM\n", &allnum);
+        // the same dictionary built separately, keys inserted in the opposite order
+        let rebuild: String = ks.iter().enumerate().rev().map(|(i, key)| format!("let y at {} be \"v{}\"\n", KEYS[*key], i)).collect::<Vec<_>>().concat();
+        let op = op.replace("@REBUILD\n", &rebuild);
         let op = op.replace("@K0", KEYS[ks[0]]).replace("@K1", KEYS[ks[1]]).replace("@KL", KEYS[ks[ks.len() - 1]]);
         t.push_str(&op);
         (t, k)
